@@ -125,6 +125,7 @@ type drv struct {
 	nontrivial bool
 	bufs       [][]byte
 	cls        string
+	rec        []Ev // recorded events (for the comparison with the model's prediction)
 	spare      []*sonic.Timer
 	mu         sync.Mutex
 	abandoned  bool // the watchdog gave up on this scenario (its goroutine is blocked for good)
@@ -143,6 +144,9 @@ func (d *drv) emit(e Ev) {
 	}
 	if e.Kinds == nil {
 		e.Kinds = []string{}
+	}
+	if len(d.rec) < 4096 {
+		d.rec = append(d.rec, e)
 	}
 	d.w.Emit(e)
 }
@@ -615,6 +619,47 @@ func (d *drv) env(what string, oi int, n int) {
 	d.emit(Ev{Ev: "Env", Api: what, O: oi, N: n, Note: note})
 }
 
+// driftAt compares the model's predicted events (up to its drain phase) with
+// the recorded ones; returns the first differing index or -1.
+func driftAt(h, rec []Ev) int {
+	same := func(a, b Ev) bool {
+		if a.Ev != b.Ev || a.O != b.O || a.Op != b.Op || a.T != b.T || a.H != b.H {
+			return false
+		}
+		switch a.Ev {
+		case "CbB", "CloseE", "TSchedE", "TCancelE", "TCloseE", "PollE", "PostE":
+			if a.Err != b.Err {
+				return false
+			}
+		case "Sample":
+			if a.Pending != b.Pending || a.Posted != b.Posted || len(a.Sched) != len(b.Sched) {
+				return false
+			}
+			for i := range a.Sched {
+				if a.Sched[i] != b.Sched[i] {
+					return false
+				}
+			}
+		}
+		return true
+	}
+	for i, e := range h {
+		if e.Note == "drain" {
+			return -1
+		}
+		if i >= len(rec) {
+			return -1
+		}
+		if i == 0 {
+			continue // Reset
+		}
+		if !same(e, rec[i]) {
+			return i
+		}
+	}
+	return -1
+}
+
 // parse turns the model's history into per-activation command lists.
 func parse(h []Ev) (map[string][]Ev, Ev) {
 	script := map[string][]Ev{}
@@ -862,6 +907,14 @@ func Run(a tr.Args) error {
 		if sd.nontrivial {
 			sum.Nontrivial++
 		}
+		sd.mu.Lock()
+		if k := driftAt(h, sd.rec); k >= 0 {
+			sum.Drift++
+			if sum.FirstDrift == nil {
+				sum.FirstDrift = map[string]any{"sid": sd.sid, "event": k + 1, "predicted": h[k], "observed": sd.rec[k]}
+			}
+		}
+		sd.mu.Unlock()
 		return nil
 	})
 	if err != nil {
